@@ -534,3 +534,32 @@ def const_choices(f, e, depth=0):
         d = single_defs(f).get(e.get('id'))
         return const_choices(f, d, depth + 1) if d is not None else None
     return None
+
+
+def fn_exprs_inlined(prog, f, depth=2, _seen=None):
+    """the expressions of f in source order, with the expressions of helpers (functions with a body in the same source file or
+    the same class) inserted at their call sites (after the call's own argument expressions)"""
+    _seen = _seen or set([f.get('q')])
+    pending = []
+    for e in fn_exprs(f):
+        yield e
+        helper = None
+        if depth > 0 and e.get('k') == 'call' and e.get('fn'):
+            for h in prog.fn(e['fn'], e.get('sig')):
+                if h.get('body') and h.get('q') not in _seen and (h.get('file') == f.get('file') or (h.get('clsp') and h.get('clsp') == f.get('clsp'))):
+                    helper = h
+                    break
+        if helper is not None:
+            pending.append([set(id(x) for x in walk_expr(e)) - set([id(e)]), helper])
+        done = []
+        for pnd in pending:
+            pnd[0].discard(id(e))
+            if not pnd[0]:
+                done.append(pnd)
+        for pnd in done:
+            pending.remove(pnd)
+            for x in fn_exprs_inlined(prog, pnd[1], depth - 1, _seen | set([pnd[1].get('q')])):
+                yield x
+    for pnd in pending:
+        for x in fn_exprs_inlined(prog, pnd[1], depth - 1, _seen | set([pnd[1].get('q')])):
+            yield x
